@@ -55,6 +55,9 @@ type SFile struct {
 	Name   string  `json:"name"`
 	Fns    []Fn    `json:"fns"`
 	Groups []Group `json:"groups"`
+	// the value this file gives the constant kSize (0: the file does not declare it): filters spelled alike over it mean something
+	// else in every file -- what a rule means is what its own file says, whatever was loaded before under the same spelling
+	KSize int `json:"ksize,omitempty"`
 }
 
 type Bundle struct {
@@ -79,7 +82,20 @@ var filters = []string{
 	`!m["x"].Type.Is("int64")`,
 	// names resolved through the engine-wide type lookup at load time
 	`!m["x"].Type.Implements("io.Reader")`, `!m["x"].Type.HasMethod("io.Writer.Write")`, `!m["x"].Type.Implements("error")`,
+	// one spelling over the constant kSize, to which every file gives its own value
+	`m["x"].Type.Size == kSize`, `m["x"].Type.Size != kSize && m["x"].Type.Size >= kSize/2`,
 }
+
+// kSizeFilters: the indices of the filters that are spelled over the constant of the file
+var kSizeFilters = func() []int {
+	var out []int
+	for i, f := range filters {
+		if strings.Contains(f, "kSize") {
+			out = append(out, i)
+		}
+	}
+	return out
+}()
 
 func renderFn(f Fn) string {
 	switch {
@@ -136,6 +152,9 @@ func renderSFile(pkg string, sf *SFile, bundles []Bundle, broken bool, declBundl
 	if declBundle {
 		sb.WriteString("\nvar Bundle = dsl.Bundle{}\n")
 	}
+	if sf.KSize != 0 {
+		fmt.Fprintf(&sb, "\nconst kSize = %d\n", sf.KSize)
+	}
 	if len(bundles) != 0 {
 		sb.WriteString("\nfunc init() {\n")
 		for _, b := range bundles {
@@ -172,8 +191,9 @@ func bundlePackages(uid *int) map[string][]*SFile {
 		Groups: []Group{
 			{Name: "g2", Rules: []Rule{{UID: next(), Kind: "syntax", Pat: 0, Filter: 5, Fn: "check"}}},
 		}}
-	rb2b := &SFile{ID: 103, Name: "rb2_b.go", Groups: []Group{
-		{Name: "by", Rules: []Rule{{UID: next(), Kind: "syntax", Pat: 3, Filter: 1}, {UID: next(), Kind: "syntax", Pat: 9, Filter: 0}}},
+	rb2b := &SFile{ID: 103, Name: "rb2_b.go", KSize: 4, Groups: []Group{
+		{Name: "by", Rules: []Rule{{UID: next(), Kind: "syntax", Pat: 3, Filter: 1}, {UID: next(), Kind: "syntax", Pat: 9, Filter: 0},
+			{UID: next(), Kind: "syntax", Pat: 1, Filter: kSizeFilters[0]}}},
 	}}
 	return map[string][]*SFile{"rb1": {rb1}, "rb2": {rb2a, rb2b}}
 }
@@ -416,6 +436,9 @@ func genRule(rng *rand.Rand, uid *int, fns []Fn, closedFns bool) Rule {
 		r.Kind = "syntax"
 		r.Pat = rng.Intn(len(syntaxPats))
 		r.Filter = rng.Intn(len(filters))
+		if rng.Intn(5) == 0 {
+			r.Filter = kSizeFilters[rng.Intn(len(kSizeFilters))] // spelled over the constant of the file
+		}
 		if r.Pat == 8 && r.Filter != 4 {
 			// the condition of an if statement may have an untyped type; size/type predicates on it are C07's business
 			r.Filter = 0
@@ -459,6 +482,7 @@ func genFile(rng *rand.Rand, id int, uid *int, pkgs map[string][]*SFile) *RFile 
 	rng.Shuffle(len(names), func(i, j int) { names[i], names[j] = names[j], names[i] })
 	sf := &SFile{ID: id, Name: fmt.Sprintf("f%d.go", id)}
 	sf.Fns = genFns(rng)
+	sf.KSize = []int{1, 2, 4, 8}[(id+rng.Intn(2))%4]
 	ng := 1 + rng.Intn(3)
 	badAt := -1
 	if rng.Intn(4) == 0 || id <= 3 {
@@ -624,7 +648,7 @@ func main() {
 	measure := func(sf *SFile) {
 		for _, g := range sf.Groups {
 			for _, r := range g.Rules {
-				one := &SFile{ID: sf.ID, Name: "single.go", Fns: sf.Fns, Groups: []Group{{Name: "single", Rules: []Rule{r}}}}
+				one := &SFile{ID: sf.ID, Name: "single.go", Fns: sf.Fns, KSize: sf.KSize, Groups: []Group{{Name: "single", Rules: []Rule{r}}}}
 				e := ruleguard.NewEngine()
 				o := load(e, t.Fset, "single.go", renderSFile("gorules", one, nil, false, false), "src", nil)
 				k := fmt.Sprint(r.UID)
